@@ -210,6 +210,7 @@ PROPS["C19"] = dict(
             dict(harness="VerifHarness_C19_p1", reach=["ok", "error", "excluded"]),
             dict(harness="VerifHarness_C19_p1g2", reach=["ok", "error", "excluded"]),
             dict(harness="VerifHarness_C19_schema1", reach=["ok", "error", "excluded"]),
+            dict(module="cmd/atlas", pkg="ariga.io/atlas/cmd/atlas/internal/cmdapi", hdir="cmdapi", harness="VerifHarness_C19_policy", reach=["policy"]),
             dict(harness="VerifHarness_C19_p2", reach=["ok", "error", "excluded"]),
             dict(pkg="ariga.io/atlas/sql/sqlite", hdir="sqlite", harness="VerifHarness_C02_sqlite_skip", reach=["changes", "no-change"]),
         ],
@@ -220,6 +221,7 @@ PROPS["C19"] = dict(
             dict(harness="VerifHarness_C19_p1", reach=["ok", "error", "excluded"]),
             dict(harness="VerifHarness_C19_p1g3", reach=["ok", "error", "excluded"]),
             dict(harness="VerifHarness_C19_schema2", reach=["ok", "error", "excluded"]),
+            dict(module="cmd/atlas", pkg="ariga.io/atlas/cmd/atlas/internal/cmdapi", hdir="cmdapi", harness="VerifHarness_C19_policy", reach=["policy"]),
             dict(harness="VerifHarness_C19_p1sym", reach=["ok", "excluded"], cross=False),
             dict(harness="VerifHarness_C19_p2", reach=["ok", "error", "excluded"], cross=False),
         ],
@@ -229,7 +231,8 @@ PROPS["C19"] = dict(
                  "2^8 templates (SQLite; thorough: all three dialects); exclusion: realm of 2 schemas x 2 tables x (2 columns, 1 index, 1 foreign key, 1 named check); one pattern of 1..3 parts whose globs are "
                  "1 symbolic byte each over {a,b,c,*,?,[,],-,^,\\} with any of 13 [type=...] selectors; one pattern whose last glob has 2 symbolic "
                  "bytes; two patterns (last glob symbolic, earlier parts in {*,a}, 4 selectors); schema-scoped entry point ExcludeSchema on either schema "
-                 "(table names coincide with schema names) with one pattern of 1..2 symbolic parts and 4 selectors",
+                 "(table names coincide with schema names) with one pattern of 1..2 symbolic parts and 4 selectors; project policy: project-level and env-level "
+                 "skip blocks with 5 symbolic booleans each x 5 shapes of the env's diff block (absent, empty, driver-specific only, own skip, both)",
         "thorough": "same plus a 3-byte last glob, and symbolic one-letter resource names for schemas, tables and one table's columns",
     },
     assumptions=[
@@ -238,11 +241,12 @@ PROPS["C19"] = dict(
         "selectors are attached to the last pattern part only",
     ],
     outside="views/functions/procedures/triggers and realm objects, patterns with more than the bounded glob length, "
-            "schema apply --exclude / diff.skip from the project file end to end (cmdapi)",
+            "schema apply --exclude end to end, parsing of the project file itself (the Diff structures are built directly)",
     claim="For every pattern (glob bytes are solver variables) within the bounds, the real ExcludeRealm either rejects the pattern with an "
           "error or returns a realm in which exactly the resources addressed by some pattern (path parts match, selector admits the kind, "
           "children go with an excluded parent) are absent and all others are still present, compared with a declarative reference; "
-          "ExcludeSchema behaves as ExcludeRealm with the pattern qualified by the literal schema name and never touches another schema. "
+          "ExcludeSchema behaves as ExcludeRealm with the pattern qualified by the literal schema name and never touches another schema; the "
+          "skip policy handed to the differ is the env's own skip block if it has one and the project's otherwise (Diff.Extend / Options / Skipped). "
           "Skip policy: for every subset of 8 skippable change kinds and every present/absent combination of column/index/pk/fk on both sides "
           "(attributes differing so that both-present is a modify), TableDiff reports no change of a disabled kind and still every other edit.",
     technique='bounded symbolic execution of the real ExcludeRealm / ExcludeSchema (path/filepath.Match and encoding/csv from source) with glob bytes as z3 variables, and of TableDiff under every skip policy; branches and assertions decided by z3; counterexamples replayed natively',
@@ -765,6 +769,8 @@ PROPS["C03"] = dict(
         "quick": [
             dict(harness="VerifHarness_C03_index2", reach=["recovered", "expression"], stubs=_rows_stubs),
             dict(harness="VerifHarness_C03_types", reach=["recovered"]),
+            dict(_hclfull, harness="VerifHarness_C15_sqlite_doc_strings", reach=["evaluated"]),
+            dict(_hclfull, harness="VerifHarness_C15_sqlite_doc_objects", reach=["evaluated"]),
             dict(harness="VerifHarness_C03_names", reach=["recovered"]),
             dict(harness="VerifHarness_C03_checks3", reach=["recovered"], flags=["-domain"]),
             dict(harness="VerifHarness_C03_gen3", reach=["recovered"], flags=["-domain"]),
@@ -784,7 +790,8 @@ PROPS["C03"] = dict(
                  "a STORED generated column whose expression ends in 3 such bytes; expressions assumed balanced in parentheses and quotes; index slice: one index of "
                  "1..2 key parts (column or expression of 2 symbolic bytes, ascending or descending), optionally unique and partial, emitted by the planner and "
                  "recovered by the real inspect.indexes (pragma answers modelled from the emitted statement); type slice: every type of the SQLite catalogue "
-                 "(38 names incl. 3 user-defined spellings x 3 argument forms x 2 cases) exported by FormatType, inspected again by ParseType and compared by the real differ",
+                 "(38 names incl. 3 user-defined spellings x 3 argument forms x 2 cases) exported by FormatType, inspected again by ParseType and compared by the real differ; HCL export: the SQLite document-level families of C15 "
+                 "(strings and objects: MarshalHCL -> EvalHCLBytes -> differ in both directions)",
         "thorough": "same plus two CHECK constraints with 2 symbolic bytes each",
     },
     assumptions=[
@@ -792,7 +799,7 @@ PROPS["C03"] = dict(
         "primary key, foreign key with numeric id) is constructed by the harness",
         "expressions are balanced in parentheses and quotes (SQLite rejects anything else) and contain no top-level comma",
     ],
-    outside="pragma-based inspection on a real engine, HCL marshal/eval (MarshalHCL, EvalHCLBytes), SQL export through cmdlog, statements rewritten by "
+    outside="pragma-based inspection on a real engine, SQL export through cmdlog, statements rewritten by "
             "ALTER TABLE, determinism of a second inspection, other dialects",
     claim="For every expression text within the bounds, the CHECK constraints (names and expressions), the foreign-key constraint name, the "
           "AUTOINCREMENT flag and the generated-column expression recovered by fillChecks / fillConstName / autoinc / setGenExpr / scanExpr from the "
